@@ -61,7 +61,7 @@ def run(ctx):
     ctx.rule("L5", "routing follows the address: while locked, the request-channel mask must depend on the live decode", min_sites=2)
 
     ctx.rule("L6", "crossbar access matrix is indexed [master][slave]: decoders take rows, arbiters take columns (non-square "
-                   "crossbars keep every master and every slave connected)", min_sites=8)
+                   "crossbars keep every master and every slave connected)", min_sites=4)
     from ..rules_xbar import crossbar_shape
     crossbar_shape(ctx, "L6", AL, "AXILiteCrossbar", "AXILiteDecoder", "AXILiteArbiter")
     crossbar_shape(ctx, "L6", AF, "AXICrossbar", "AXIDecoder", "AXIArbiter")
@@ -124,11 +124,12 @@ def run(ctx):
             ok = len(rq) == 1 and not rq[0].guards
             if ok:
                 v = rq[0].value
-                ok = isinstance(v, ast.Call) and norm(v.func) == "Cat" and len(v.args) == 1 and isinstance(v.args[0], ast.Starred) and \
-                    isinstance(v.args[0].value, (ast.ListComp, ast.GeneratorExp)) and norm(v.args[0].value.generators[0].iter) == "masters"
+                els = q.star_elements(v.args[0]) if isinstance(v, ast.Call) and norm(v.func) == "Cat" and len(v.args) == 1 and \
+                    isinstance(v.args[0], ast.Starred) else None
+                ok = bool(els) and len(els) == 1 and els[0][2] == "masters"
                 if ok:
-                    m = norm(v.args[0].value.generators[0].target)
-                    fr = B.from_expr(v.args[0].value.elt)
+                    m = els[0][1]
+                    fr = B.from_expr(els[0][0])
                     ok = B.equivalent(fr, B.Or(*[B.A(f"{m}.{c}.valid") for c in chans]))
             ctx.ob("L2", rel, acls, f"{rr}.request = OR of the masters' {'/'.join(chans)} valids", ok,
                    "" if ok else f"{rr}.request <= {rq[0].v if rq else '?'}", rq[0].line if rq else 0)
@@ -208,18 +209,16 @@ def run(ctx):
                s2m[0].line if s2m else 0)
         m = ctx.mod(rel)
         init = m.method(dcls, "__init__")
-        chtab = None
-        for n in ast.walk(init):
-            if isinstance(n, ast.Assign) and norm(n.targets[0]) == "channels" and isinstance(n.value, ast.Dict):
-                try:
-                    chtab = const_fold(n.value)
-                except ValueError:
-                    pass
+        from lxs import pyconst
+        tabs = pyconst.run(init, pyconst.module_consts(m.tree))
+        chtab = tabs.get("channels")
+        if isinstance(chtab, dict):
+            chtab = {k: set(v) if isinstance(v, (list, tuple, set)) else v for k, v in chtab.items()}
         ok = chtab == {"write": {"aw", "w", "b"}, "read": {"ar", "r"}}
         ctx.ob("L3", rel, dcls, "channel table write={aw,w,b}, read={ar,r}", ok, "" if ok else f"channels = {chtab}", init)
-        dd = fx.localdefs.get("directions")
-        ok = dd is not None and norm(dd) == "{ch: d for d, chs in channels.items() for ch in chs}"
-        ctx.ob("L3", rel, dcls, "directions = inverse of the channel table", ok, "" if ok else f"directions = {norm(dd) if dd is not None else '?'}")
+        dd = tabs.get("directions")
+        ok = dd == {"aw": "write", "w": "write", "b": "write", "ar": "read", "r": "read"}
+        ctx.ob("L3", rel, dcls, "directions = inverse of the channel table", ok, "" if ok else f"directions = {dd if dd is not None else '?'}")
         # locks
         lk = None
         for n in ast.walk(init):
